@@ -91,6 +91,22 @@ type ColLowCardinality[T comparable] struct {
 	keys []int
 }
 
+// Infer passes the type of LowCardinality(T) elements down to the index
+// (dictionary) column if that column adopts parameters of type (precision,
+// time zone, enum values).
+//
+// Type that is not LowCardinality is ignored: the mismatch is reported by the
+// column type check.
+func (c *ColLowCardinality[T]) Infer(t ColumnType) error {
+	if t.Base() != ColumnTypeLowCardinality {
+		return nil
+	}
+	if v, ok := c.index.(Inferable); ok {
+		return v.Infer(t.Elem())
+	}
+	return nil
+}
+
 // DecodeState implements StateDecoder, ensuring state for index column.
 func (c *ColLowCardinality[T]) DecodeState(r *Reader) error {
 	keySerialization, err := r.Int64()
